@@ -266,8 +266,25 @@ class MustWrite:
             if isinstance(end, ast.Raise):
                 continue
             val = end.value if isinstance(end, ast.Return) else ast.Constant(value=None)
+            if val is None:
+                val = ast.Constant(value=None)
             if isinstance(val, ast.Constant):
                 if bool(val.value) != truth:
+                    continue
+            else:
+                # the returned value is (a local holding) a condition that was tested on this path
+                known = None
+                neg = False
+                v2 = val
+                while isinstance(v2, ast.UnaryOp) and isinstance(v2.op, ast.Not):
+                    v2, neg = v2.operand, not neg
+                for test, pol in path.conds:
+                    t2, p2 = test, pol
+                    while isinstance(t2, ast.UnaryOp) and isinstance(t2.op, ast.Not):
+                        t2, p2 = t2.operand, not p2
+                    if isinstance(t2, ast.expr) and ast.dump(t2) == ast.dump(v2):
+                        known = (p2 != neg)
+                if known is not None and known != truth:
                     continue
             written = set()
             for s_ in path.stmts:
@@ -298,6 +315,16 @@ def _dict_pop(n, sn):
     if isinstance(n, ast.Call) and isinstance(n.func, ast.Attribute) and n.func.attr == 'pop' and n.args \
             and isinstance(n.args[0], ast.Constant) and isinstance(n.args[0].value, str):
         r = n.func.value
+        if isinstance(r, ast.Name):
+            # a local alias of the instance dict: overrides = self.__dict__ / vars(self)
+            p_ = n
+            while p_ is not None and not isinstance(p_, (ast.FunctionDef, ast.AsyncFunctionDef)):
+                p_ = getattr(p_, '_parent', None)
+            if p_ is not None:
+                from .idioms import single_def
+                d = single_def(p_, r.id)
+                if isinstance(d, ast.AST):
+                    r = d
         if isinstance(r, ast.Attribute) and r.attr == '__dict__' and isinstance(r.value, ast.Name) and r.value.id == sn:
             return n.args[0].value
         if isinstance(r, ast.Call) and isinstance(r.func, ast.Name) and r.func.id == 'vars' and r.args \
